@@ -174,6 +174,8 @@ def verify(contract, scratch, tucache, bounded=0, bcase=None):
                 if start is None:
                     raise ExtractionError(f'{contract.name}: slice start marker "{contract.slice_from}" not found')
                 stmts = stmts_all[start:]
+                if getattr(contract, 'slice_count', None):
+                    stmts = stmts[:contract.slice_count]       # the declaration and the statements right after it
             # everything declared before the range is an input of the slice
             declared_before = {}
             for s_ in stmts_all[:start]:
